@@ -18,6 +18,8 @@ import os
 from hypothesis import strategies as st
 from hypothesis.stateful import rule
 
+from dvc_objects.fs.local import LocalFileSystem
+
 from dvc_data.hashfile.state import State
 
 from .. import gen, ops, ref
@@ -39,20 +41,26 @@ RULE = (
     "are saved once per history: most valid, some unsaved / other algorithm / newer version / "
     "deleted), hash_file(state=), build() of a file or the directory on a store carrying the state, "
     "_get_hashes, build_entries(compute_hash=True), index md5() / update(new, old) / md5() of a kept "
-    "index, planted entries (version HASH_VERSION+k, legacy entries without version), the same "
+    "index, mutate_during_batch (_get_hashes / build(dir) / build_entries through a harness-owned "
+    "LocalFileSystem subclass that rewrites an already-read file of the batch when a later one is "
+    "opened; only later lookups of that file are judged), "
+    "planted entries (version HASH_VERSION+k, legacy entries without version), the same "
     "path on a MemoryFileSystem, State re-open; algorithm from {md5, md5-dos2unix, sha256}; stat "
     "info read by the harness at the instant of the call, or omitted. Oracle: every returned hash "
     "== hashlib (ref_hash) of the bytes on disk now and carries the requested algorithm name; "
     "get_many == element-wise get (order, meta, hash); newer-version entries, deleted files and "
     "non-local filesystems are misses. Non-trivial = a query answered from the cache for a path "
-    "mutated earlier in the history, or a batch >= 1000, or an update() after a mutation; distinct "
+    "mutated earlier in the history, or a batch >= 1000, or an update() after a mutation, or a "
+    "mutation that fired during a batch call; distinct "
     "= SHA-1 of the trace JSON."
 )
 ASSUMPTIONS = [
     "premise enforced by the harness: after every content mutation the (inode, mtime, size) triple "
     "of the path, as fs.info reports it, differs from every triple that path held before",
     "caller-supplied stat info is always read at the instant of the call (never older)",
-    "single-threaded: no mutation happens between a library call's stat and its read",
+    "no mutation happens between a library call's stat of a file and the end of its read of that "
+    "file; a mutation during a batch call hits only a file that call has finished reading, and the "
+    "hashes returned by that very call are not judged for it",
     "hashlib and vd.ref.ref_hash (md5-dos2unix sniffing rule) are the trusted reference",
 ]
 
@@ -120,6 +128,37 @@ class SpyState(State):
             if hi is not None:
                 self.hits.append((path, hi.name))
             yield path, meta, hi
+
+
+class WriterFS(LocalFileSystem):
+    """Harness-owned local filesystem: when the library opens a file of a batch for hashing and an
+    earlier file of the same batch (same directory) has already been read and closed, another
+    writer changes that earlier file - once, at a drawn opportunity. Deterministic, no threads."""
+
+    def __init__(self, machine, same_dir, skip, pick, action):
+        super().__init__()
+        self.m = machine
+        self.same_dir = same_dir
+        self.skip = skip
+        self.pick = pick
+        self.action = action
+        self.opened = []
+        self.victim = None
+
+    def open(self, path, mode="r", **kwargs):
+        p = os.fspath(path)
+        if self.victim is None and "r" in mode and p.startswith(self.m.ws + os.sep):
+            cand = [q for q in self.opened
+                    if q != p and (not self.same_dir or os.path.dirname(q) == os.path.dirname(p))]
+            if cand:
+                if self.skip > 0:
+                    self.skip -= 1
+                else:
+                    self.victim = cand[self.pick % len(cand)]
+                    self.action(self.victim)
+            if p not in self.opened:
+                self.opened.append(p)
+        return super().open(path, mode, **kwargs)
 
 
 class C13Machine(TraceMachine):
@@ -468,14 +507,8 @@ class C13Machine(TraceMachine):
         elif probe == "index":
             self.r_index_update(name, True)
 
-    # ---- mutation rules ------------------------------------------------------------------------
-    @rule(slot=slot_s, content=content_s, clock=clock_s, prime=prime_s, probe=probe_s, algo=algo_s)
-    @traced
-    def write_in_place(self, slot, content, clock, prime, probe, algo):
-        p = self.existing(slot)
-        if p is None:
-            return
-        self.prime(p, prime)
+    # ---- mutation primitives -------------------------------------------------------------------
+    def do_write_in_place(self, p, content, clock):
         before, prev = self.triple(p), os.stat(p).st_mtime_ns
         ino = os.stat(p).st_ino
         with open(p, "r+b") as f:
@@ -485,15 +518,8 @@ class C13Machine(TraceMachine):
             raise HarnessError("write in place changed the inode")
         self.after_mutation(p, before, self.clock(p, clock, prev))
         self.labels.add("mut:write_in_place")
-        self.probe(p, probe, algo)
 
-    @rule(slot=slot_s, content=content_s, clock=clock_s, prime=prime_s, probe=probe_s, algo=algo_s)
-    @traced
-    def atomic_replace(self, slot, content, clock, prime, probe, algo):
-        p = self.existing(slot)
-        if p is None:
-            return
-        self.prime(p, prime)
+    def do_atomic_replace(self, p, content, clock):
         before, prev = self.triple(p), os.stat(p).st_mtime_ns
         tmp = p + ".tmp~"
         with open(tmp, "xb") as f:
@@ -503,6 +529,26 @@ class C13Machine(TraceMachine):
             raise HarnessError("atomic replace did not produce a new inode")
         self.after_mutation(p, before, self.clock(p, clock, prev))
         self.labels.add("mut:atomic_replace")
+
+    # ---- mutation rules ------------------------------------------------------------------------
+    @rule(slot=slot_s, content=content_s, clock=clock_s, prime=prime_s, probe=probe_s, algo=algo_s)
+    @traced
+    def write_in_place(self, slot, content, clock, prime, probe, algo):
+        p = self.existing(slot)
+        if p is None:
+            return
+        self.prime(p, prime)
+        self.do_write_in_place(p, content, clock)
+        self.probe(p, probe, algo)
+
+    @rule(slot=slot_s, content=content_s, clock=clock_s, prime=prime_s, probe=probe_s, algo=algo_s)
+    @traced
+    def atomic_replace(self, slot, content, clock, prime, probe, algo):
+        p = self.existing(slot)
+        if p is None:
+            return
+        self.prime(p, prime)
+        self.do_atomic_replace(p, content, clock)
         self.probe(p, probe, algo)
 
     @rule(slot=slot_s, clock=clock_s)
@@ -667,6 +713,70 @@ class C13Machine(TraceMachine):
         self.check_index("index.md5(kept)", res, name)
         self.labels.add("q:index.md5(kept)" + (":after-mutation" if self.mut_count > self.old_epoch
                                                  else ""))
+
+    @rule(route=st.sampled_from(["get_hashes", "build_dir", "build_entries"]), algo=algo_s,
+          stir=st.sampled_from([True, True, False]), skip=st.sampled_from([0, 0, 1]),
+          pick=st.integers(0, 4), how=st.sampled_from(["write_in_place", "atomic_replace"]),
+          content=content_s, clock=clock_s,
+          probe=st.sampled_from(["get", "get+info", "many", "many+infos", "hash_file",
+                                 "hash_file+info", "get_hashes", "build_file", "build_entries",
+                                 "index", None]),
+          palgo=algo_s)
+    @traced
+    def mutate_during_batch(self, route, algo, stir, skip, pick, how, content, clock, probe, palgo):
+        """Another writer changes a file the batch call has already read, before the call returns.
+
+        The hashes returned by that very call are not judged for the changed file; whatever the call
+        recorded must not make any later lookup of it a stale hit."""
+        from dvc_data.hashfile.build import _get_hashes, build
+        from dvc_data.index.build import build_entries
+
+        live = self.live_files()
+        if len(live) < 2:
+            return
+        name = ALGOS[algo]
+        if stir:  # every file was touched since the last run: the whole batch has to be re-hashed
+            for i, q in enumerate(live):
+                before, prev = self.triple(q), os.stat(q).st_mtime_ns
+                self.after_mutation(q, before, self.clock(q, ["d", 1 + i], prev),
+                                    content_changed=False)
+
+        def action(victim):
+            if how == "write_in_place":
+                self.do_write_in_place(victim, content, clock)
+            else:
+                self.do_atomic_replace(victim, content, clock)
+
+        wfs = WriterFS(self, route != "get_hashes", skip, pick, action)
+        self.cnt["queries"] += 1
+        got = {}
+        if route == "get_hashes":
+            infos = {q: self.fs.info(q) for q in live}
+            res = _get_hashes(list(live), wfs, name, infos, state=self.state)
+            got = {q: r[1] for q, r in res.items()}
+        elif route == "build_dir":
+            odb = ops.make_odb("local", os.path.join(self.dir, f"odb-local-{name}"),
+                               state=self.state, hash_name=name)
+            _staging, _meta, obj = build(odb, self.ws, wfs, name)
+            got = {os.path.join(self.ws, *key): hi for key, _m, hi in obj}
+        else:
+            for e in build_entries(self.ws, wfs, compute_hash=True, state=self.state,
+                                   hash_name=name):
+                if not (e.meta is not None and e.meta.isdir):
+                    got[os.path.join(self.ws, *e.key)] = e.hash_info
+        self.take_hits(name)
+        route_name = {"get_hashes": "_get_hashes", "build_dir": "build(dir)",
+                      "build_entries": "build_entries"}[route]
+        for q in sorted(got):
+            if q != wfs.victim:
+                self.check(route_name, q, got[q], name)
+        self.labels.add(f"q:{route_name}:{name}")
+        if wfs.victim is None:
+            self.labels.add("mid-batch:writer-not-fired")
+            return
+        self.labels.add(f"mid-batch:{route}:{how}")
+        self.nt.add("mutation-during-batch")
+        self.probe(wfs.victim, probe, palgo)
 
     @rule(slot=slot_s, kind=st.sampled_from(["newer", "newer", "legacy"]), bump=st.sampled_from([1, 1, 2, 7]))
     @traced
